@@ -279,6 +279,7 @@ class RegenHistory(Bounded):
             r = run(conf)
             if r.returncode != 0:
                 return self.fail(case, raw, 'configure_succeeds', stderr=r.stderr[-400:])
+            order_only = None
             for k, e in enumerate(raw['edits']):
                 age(1600000000 + 1000 * k)
                 EDITS[e](src)
@@ -300,8 +301,15 @@ class RegenHistory(Bounded):
                 for n in BUILD_FILES:
                     if n == 'Makefile' and got[n] is not None and fresh[n] is not None:
                         # the members of a `dist` archive command are listed in registration order; after a cached
-                        # regeneration the extra= files are registered behind the found ones: same archive, so the
-                        # member list is compared as a set
+                        # regeneration the extra= files are registered behind the found ones (same archive, another
+                        # text): that order difference is reported under a clause of its own (a known finding), every
+                        # other difference under the main clause
+                        if got[n] != fresh[n] and _sort_dist_members(got[n]) == _sort_dist_members(fresh[n]) and order_only is None:
+                            # (remembered, reported at the end if nothing else differs: a difference in anything but
+                            # this order is a finding of its own and must not be hidden behind it)
+                            order_only = self.fail(case, raw, 'dist_members_listed_in_the_order_of_a_fresh_configure', step=k, edit=e,
+                                                   file=n, have=[l for l in got[n].split('\n') if '-ipN -f ' in l][:1],
+                                                   fresh=[l for l in fresh[n].split('\n') if '-ipN -f ' in l][:1])
                         got[n], fresh[n] = (_sort_dist_members(x) for x in (got[n], fresh[n]))
                     if n == '.bfg_find_deps' and got[n] is not None and fresh[n] is not None:
                         # the watched directories are written in set-iteration order (varies with the hash seed
@@ -319,7 +327,7 @@ class RegenHistory(Bounded):
                 if m2.returncode != 0 or len(calls()) != n1:
                     return self.fail(case, raw, 'second_run_regenerates_nothing', step=k, edit=e,
                                      extra_regenerations=len(calls()) - n1, output=(m2.stdout + m2.stderr)[-300:])
-            return True
+            return order_only if order_only is not None else True
         finally:
             shutil.rmtree(top, ignore_errors=True)
 
